@@ -525,8 +525,10 @@ fn fixed_inputs(case: &Case, c: &Compiled, assign: &[Value], or: &FixedIdeal) ->
 pub fn gen_micro(rng: &mut Rng) -> Case {
     loop {
         let n_in = 2 + rng.usize_below(2);
-        let arr = rng.chance(1, 4);
-        let t = if arr { array_type(vec![2], BIT) } else { scalar_type(BIT) };
+        let shape_kind = rng.below(6);
+        let arr = shape_kind == 0;
+        let mat = shape_kind == 1;
+        let t = if arr { array_type(vec![2], BIT) } else if mat { array_type(vec![1, 1], BIT) } else { scalar_type(BIT) };
         let mut steps: Vec<Step> = (0..n_in).map(|_| Step { op: Operation::Input(t.clone()), deps: vec![], gdeps: vec![] }).collect();
         if arr && n_in > 2 {
             continue;
@@ -542,6 +544,12 @@ pub fn gen_micro(rng: &mut Rng) -> Case {
                 _ => {
                     if arr {
                         Operation::Dot
+                    } else if mat {
+                        match rng.below(3) {
+                            0 => Operation::Matmul,
+                            1 => Operation::Gemm(rng.chance(1, 2), rng.chance(1, 2)),
+                            _ => Operation::Dot,
+                        }
                     } else {
                         Operation::Multiply
                     }
@@ -893,7 +901,18 @@ pub fn gen_sampled(rng: &mut Rng, heavy: bool) -> Option<(Case, Vec<Value>)> {
     let mut steps = vec![Step { op: Operation::Input(t.clone()), deps: vec![], gdeps: vec![] }, Step { op: Operation::Input(t.clone()), deps: vec![], gdeps: vec![] }];
     let mut in_types = vec![t.clone(), t.clone()];
     match kind {
-        0 => steps.push(Step { op: Operation::Multiply, deps: vec![0, 1], gdeps: vec![] }),
+        0 => {
+            if shape.is_empty() && rng.chance(1, 2) {
+                // private x private Gemm / Matmul on 1x1 matrices
+                let mt = array_type(vec![1, 1], st);
+                steps[0] = Step { op: Operation::Input(mt.clone()), deps: vec![], gdeps: vec![] };
+                steps[1] = Step { op: Operation::Input(mt.clone()), deps: vec![], gdeps: vec![] };
+                in_types = vec![mt.clone(), mt];
+                steps.push(Step { op: if rng.chance(2, 3) { Operation::Gemm(rng.chance(1, 2), rng.chance(1, 2)) } else { Operation::Matmul }, deps: vec![0, 1], gdeps: vec![] });
+            } else {
+                steps.push(Step { op: Operation::Multiply, deps: vec![0, 1], gdeps: vec![] });
+            }
+        }
         1 => {
             steps.push(Step { op: Operation::Multiply, deps: vec![0, 1], gdeps: vec![] });
             steps.push(Step { op: Operation::Add, deps: vec![2, 0], gdeps: vec![] });
